@@ -433,12 +433,19 @@ class DB:
                 else:
                     ci.external_bases.append(self.resolve_dotted_name(ci.module, d))
 
-    def resolve_dotted_name(self, m: Module, d: str) -> str:
+    def resolve_dotted_name(self, m: Module, d: str, _depth: int = 0) -> str:
         """Expand the first component through the import table: `_ssl.SSLError` -> `ssl.SSLError`."""
         head, _, rest = d.partition(".")
         if head in m.imports:
             full = m.imports[head]
             return f"{full}.{rest}" if rest else full
+        # module-level alias of an import: `_ssl_module = _ssl` (optional-dependency idiom)
+        val = m.assigns.get(head)
+        if isinstance(val, (ast.Name, ast.Attribute)) and _depth < 4:
+            inner = dotted(val)
+            if inner and inner.split(".")[0] != head:
+                full = self.resolve_dotted_name(m, inner, _depth + 1)
+                return f"{full}.{rest}" if rest else full
         return d
 
     def lookup(self, full: str, _depth: int = 0) -> "Module | ClassInfo | FunctionInfo | ast.expr | None":
